@@ -17,13 +17,24 @@ theorem unaliasS_bin (k : String) (a b : SqlExpr) : unaliasS (.bin k a b) = .bin
 theorem unaliasS_un (k : String) (a : SqlExpr) : unaliasS (.un k a) = .un k a := rfl
 theorem unaliasS_paren (a : SqlExpr) : unaliasS (.paren a) = .paren a := rfl
 theorem unaliasS_isNull (a : SqlExpr) : unaliasS (.isNull a) = .isNull a := rfl
-theorem unaliasS_inList (a : SqlExpr) (vs : List Val) : unaliasS (.inList a vs) = .inList a vs := rfl
+theorem unaliasS_inList (a : SqlExpr) (vs : List LitNode) : unaliasS (.inList a vs) = .inList a vs := rfl
 theorem unaliasS_between (a lo hi : SqlExpr) : unaliasS (.between a lo hi) = .between a lo hi := rfl
 theorem unaliasS_fn2 (f : String) (a b : SqlExpr) : unaliasS (.fn2 f a b) = .fn2 f a b := rfl
 theorem unaliasS_fn3 (f : String) (a b c : SqlExpr) : unaliasS (.fn3 f a b c) = .fn3 f a b c := rfl
 theorem unaliasS_caseWhen (c v r : SqlExpr) : unaliasS (.caseWhen c v r) = .caseWhen c v r := rfl
 theorem unaliasS_caseElse (d : SqlExpr) : unaliasS (.caseElse d) = .caseElse d := rfl
 theorem unaliasS_cast (a : SqlExpr) (ty : String) : unaliasS (.cast a ty) = .cast a ty := rfl
+
+/-- a literal, un-aliased, is a literal leaf -/
+theorem unaliasS_fnExpr (c : LitCfg) (v : PyVal) : unaliasS (fnExpr c v) = .lit (fnNode c v) := by
+  unfold fnExpr
+  split <;> rfl
+
+theorem unaliasS_litExpr (c : LitCfg) (k : Gen.Coerce) (v : PyVal) : unaliasS (litExpr c k v) = .lit (coerceNode c k v) := by
+  cases k
+  · simp [litExpr, unaliasS]
+  · simp [litExpr, unaliasS]
+  · simp only [litExpr, coerceNode]; exact unaliasS_fnExpr c v
 
 theorem mkCast_cases (t : SqlExpr) (ty : String) : (∃ a, t = .cast a ty ∧ mkCast t ty = .cast a ty) ∨ mkCast t ty = .cast t ty := by
   unfold mkCast
@@ -125,7 +136,8 @@ theorem opnd_atom_or_class (cfg : Cfg) (ht : tableOK cfg = true) (hp : parenOK c
   obtain ⟨hneg, hinv, hens, _, hlike, _⟩ := tableOK_misc ht
   induction e with
   | col n => left; simp [opnd, build, unaliasS, level, atomLevel]
-  | lit v => left; simp [opnd, build, unaliasS, level, atomLevel]
+  | lit v => left; simp [opnd, build, unaliasS_fnExpr, level, atomLevel]
+  | raw s v => left; simp [opnd, build, unaliasS_litExpr, level, atomLevel]
   | arith op a b _ _ =>
     left; simp [opnd, build, unaliasS_applyBin, level_applyBin, (parenOK_arith hp op).1, atomLevel]
   | arithL op v b _ =>
@@ -174,7 +186,8 @@ theorem level_atomicP (cfg : Cfg) (ht : tableOK cfg = true) (hp : parenOK cfg = 
   obtain ⟨hneg, _, _, _, _, _⟩ := tableOK_misc ht
   induction e with
   | col n => intro _; simp [opnd, build, unaliasS, level, atomLevel]
-  | lit v => intro _; simp [opnd, build, unaliasS, level, atomLevel]
+  | lit v => intro _; simp [opnd, build, unaliasS_fnExpr, level, atomLevel]
+  | raw s v => intro _; simp [opnd, build, unaliasS_litExpr, level, atomLevel]
   | arith op a b _ _ =>
     intro _; simp [opnd, build, unaliasS_applyBin, level_applyBin, (parenOK_arith hp op).1, atomLevel]
   | arithL op v b _ =>
@@ -215,7 +228,8 @@ theorem level_ge3 (cfg : Cfg) (ht : tableOK cfg = true) (hp : parenOK cfg = true
   obtain ⟨hneg, hinv, hens, _, hlike, _⟩ := tableOK_misc ht
   induction e with
   | col n => intro _; simp [opnd, build, unaliasS, level, atomLevel]
-  | lit v => intro _; simp [opnd, build, unaliasS, level, atomLevel]
+  | lit v => intro _; simp [opnd, build, unaliasS_fnExpr, level, atomLevel]
+  | raw s v => intro _; simp [opnd, build, unaliasS_litExpr, level, atomLevel]
   | arith op a b _ _ =>
     intro _; simp [opnd, build, unaliasS_applyBin, level_applyBin, (parenOK_arith hp op).1, atomLevel]
   | arithL op v b _ =>
@@ -284,7 +298,8 @@ theorem bExpr_opnd (cfg : Cfg) (ht : tableOK cfg = true) (hp : parenOK cfg = tru
     · cases hsf : o.selfFirst <;> simp [applyBin, hpar, hsf, bExpr]
   induction e with
   | col n => intro _; rfl
-  | lit v => intro _; rfl
+  | lit v => intro _; simp [opnd, build, unaliasS_fnExpr, bExpr]
+  | raw s v => intro _; simp [opnd, build, unaliasS_litExpr, bExpr]
   | arith op a b _ _ => intro h; simp only [opnd, build, unaliasS_applyBin] at h ⊢; exact hbin _ _ _ (infixLevel_le _) h
   | arithL op v b _ => intro h; simp only [opnd, build, unaliasS_applyBin] at h ⊢; exact hbin _ _ _ (infixLevel_le _) h
   | cmp op a b _ _ => intro h; simp only [opnd, build, unaliasS_applyBin] at h ⊢; exact hbin _ _ _ (infixLevel_le _) h
